@@ -18,6 +18,8 @@ import (
 	"path/filepath"
 	"sort"
 	"strings"
+	"sync/atomic"
+	"syscall"
 	"time"
 
 	"github.com/spf13/afero"
@@ -48,6 +50,7 @@ type caseSpec struct {
 	MaxCount   int64            `json:"max_file_count"`
 	MaxDepth   int64            `json:"max_depth"`
 	Lying      string           `json:"lying,omitempty"`               // "", declared-smaller, declared-larger, bad-crc
+	FailRemove int              `json:"refused_removal,omitempty"`     // the k-th removal below the destination fails with EPERM (0: none)
 	LyingDepth int              `json:"lying_entry_nesting,omitempty"` // 0: entry of the archive itself; n: of an archive nested n levels down
 	Decoy      string           `json:"decoy,omitempty"`
 	Nesting    int              `json:"nesting"`
@@ -275,6 +278,9 @@ func genCase(r *vrun.Run, idx int) caseSpec {
 			c.Ambiguous = true
 		}
 	}
+	if c.Recursive && maxNest >= 1 && rng.IntN(5) == 0 {
+		c.FailRemove = 1 + rng.IntN(3)
+	}
 	var m []modelEntry
 	expand(c.Entries, "", c.Recursive, &m)
 	f, t, n, d := figures(m)
@@ -352,6 +358,15 @@ func runCase(r *vrun.Run, c caseSpec, scratch string) {
 		r.Fatalf("write archive: %v", err)
 	}
 	mon := fsmon.NewMonitor(false)
+	var removals atomic.Int64
+	if c.FailRemove > 0 {
+		// the k-th removal of an entry below the destination is refused (nested archives are removed once expanded)
+		mon.Before = func(e *fsmon.Event) {
+			if (e.Op == fsmon.OpRemove || e.Op == fsmon.OpRemoveAll) && strings.HasPrefix(e.Path, dest) && removals.Add(1) == int64(c.FailRemove) {
+				e.Inject = &os.PathError{Op: "remove", Path: e.Path, Err: syscall.EPERM}
+			}
+		}
+	}
 	fsType := filesystem.StandardFS
 	if mem {
 		fsType = filesystem.InMemoryFS
@@ -478,6 +493,21 @@ func runCase(r *vrun.Run, c caseSpec, scratch string) {
 		if c.MaxDepth >= 0 && maxDepth > c.MaxDepth {
 			r.Violation(sigBase("disk-depth"), fmt.Sprintf("success, but an entry at depth %d > MaxDepth %d", maxDepth, c.MaxDepth), witness())
 		}
+		// a nested archive which was expanded is not counted (it is removed once expanded): none is left behind
+		if c.Recursive && !c.Ambiguous && c.Lying == "" {
+			for _, e := range m {
+				if e.IsZip {
+					r.Obs("expanded_nested_archives_checked_for_removal", 1)
+					if de, ok := disk[e.Path]; ok && de.Kind == "file" {
+						r.Violation(sigBase("expanded-nested-archive-left-on-disk"), fmt.Sprintf("success, but the nested archive %s (%d bytes, not counted) is still on disk next to its content", e.Path, de.Size), witness())
+						break
+					}
+				}
+			}
+		}
+		if c.FailRemove > 0 && removals.Load() >= int64(c.FailRemove) {
+			r.Obs("successful_extractions_although_a_removal_was_refused", 1)
+		}
 		// (3) expected refusal (unambiguous archives only)
 		if !c.Ambiguous && c.Lying == "" {
 			r.Obs("archives_judged_by_expected_refusal", 1)
@@ -504,7 +534,11 @@ func runCase(r *vrun.Run, c caseSpec, scratch string) {
 		if over {
 			r.Obs("over_limit_archives_refused", 1)
 			// kind of the refusal: judged only for honest, unambiguous archives
-			if !c.Ambiguous && c.Lying == "" {
+			faultHit := c.FailRemove > 0 && removals.Load() >= int64(c.FailRemove)
+			if faultHit {
+				r.Obs("refusals_after_a_refused_removal(kind_not_judged)", 1)
+			}
+			if !c.Ambiguous && c.Lying == "" && !faultHit {
 				if !commonerrors.Any(callErr, commonerrors.ErrTooLarge) {
 					s := sigBase("refusal-kind")
 					s["kind"] = kindOf(callErr)
